@@ -4,9 +4,10 @@ check runs from a scratch copy of /verif with REDUINO_REPO pointing at that work
 import json, os, re, shutil, subprocess, sys
 
 WT, VC = "/tmp/sm_wt", "/tmp/sm_verif"
+SRC = os.environ.get("SM_SRC", "/verif")   # the copy of the machinery to run (a development copy while /verif is in use)
 subprocess.run(f"git -C /repo worktree remove --force {WT}", shell=True, capture_output=True)
 subprocess.run(f"git -C /repo worktree add -q --detach {WT} HEAD", shell=True, check=True)
-subprocess.run(f"rm -rf {VC} && rsync -a --exclude .git --exclude replay /verif/ {VC}/", shell=True, check=True)
+subprocess.run(f"rm -rf {VC} && rsync -a --exclude .git --exclude replay --exclude seeded --exclude seeded_incoming {SRC}/ {VC}/", shell=True, check=True)
 m = json.load(open("/verif/MANIFEST.json"))
 cmds = {c["property_id"]: c["quick_cmd"] for c in m["checks"]}
 rows = []
